@@ -67,6 +67,23 @@ def _is_regex_call(c, mod):
     return False
 
 
+def gate_value(t, pol, match_vars, mod):
+    """None when test `t` is not the well-formedness gate of the tag loop; otherwise whether the field matched on the
+    branch taken with polarity `pol` (`if m:`, `if not m:`, `if m is None:`, `if m is not None:` ...)."""
+    e, p = t, pol
+    while True:
+        if isinstance(e, ast.UnaryOp) and isinstance(e.op, ast.Not):
+            e, p = e.operand, not p
+        elif isinstance(e, ast.Compare) and len(e.ops) == 1 and isinstance(e.comparators[0], ast.Constant) and e.comparators[0].value is None:
+            if isinstance(e.ops[0], (ast.Is, ast.Eq)):
+                p = not p
+            e = e.left
+        else:
+            break
+    mentions = (names_in(e) & set(match_vars)) or any(_is_regex_call(c, mod) or (isinstance(c, ast.Call) and norm(c.func).startswith("re.")) for c in ast.walk(e))
+    return p if mentions else None
+
+
 def tag_loop(ctx, rule):
     """The loop over the optional fields of a GAF line: in GAF.parse_gaf_line, or in a helper it calls.
     Returns (function containing the loop, loop).  The function object carries .optional_arg: the expression the
@@ -242,9 +259,10 @@ def r19_1_parser(ctx):
             for p in paths:
                 consistent = True
                 for t, pol in p.tests():
-                    if (names_in(t) & match_vars) or any(isinstance(c, ast.Call) and norm(c.func).startswith("re.") for c in ast.walk(t)):
+                    gv_ = gate_value(t, pol, match_vars, pf.module)
+                    if gv_ is not None:
                         # the well-formedness gate (decided by C16's grammar rules): the table is over well-formed fields
-                        if pol is not True:
+                        if gv_ is not True:
                             consistent = False
                         continue
                     try:
